@@ -213,6 +213,20 @@ def run(M, c):
         M.cls("interval", sg[1], c["mb"])
         _cmp(M, "interval_ops", "iv-add", _try(lambda: iv + da), _try(lambda: tb + ta), "Duration", **ctx)
         _cmp(M, "interval_ops", "iv-mul", _try(lambda: iv * k), _try(lambda: tb * k), "Duration", k=k, **ctx)
+        # the other operand being an Interval (signed, inverted, absolute - what diff() returns) on either side
+        _cmp(M, "interval_ops", "d-sub-iv", _try(lambda: da - iv), _try(lambda: ta - tb), "Duration", **ctx)
+        _cmp(M, "interval_ops", "d-add-iv", _try(lambda: da + iv), _try(lambda: ta + tb), "Duration", **ctx)
+        _cmp(M, "interval_ops", "iv-sub-d", _try(lambda: iv - da), _try(lambda: tb - ta), "Duration", **ctx)
+        _cmp(M, "interval_ops", "iv-sub-td", _try(lambda: iv - ta), _try(lambda: tb - ta), "Duration", **ctx)
+        _cmp(M, "interval_ops", "td-sub-iv", _try(lambda: ta - iv), _try(lambda: ta - tb), None, **ctx)
+        av = s.diff(e)                      # absolute interval: its length as a timedelta is |b|
+        tav = dt.timedelta(microseconds=abs(b))
+        if td_us(av) == abs(b):
+            _cmp(M, "interval_ops", "d-sub-absiv", _try(lambda: da - av), _try(lambda: ta - tav), "Duration", **ctx)
+            _cmp(M, "interval_ops", "d-add-absiv", _try(lambda: da + av), _try(lambda: ta + tav), "Duration", **ctx)
+            _cmp(M, "interval_ops", "absiv-sub-d", _try(lambda: av - da), _try(lambda: tav - ta), "Duration", **ctx)
+            _cmp(M, "interval_ops", "iv-sub-absiv", _try(lambda: iv - av), _try(lambda: tb - tav), "Duration", **ctx)
+            _cmp(M, "interval_ops", "neg-absiv", _try(lambda: abs(-av)), _try(lambda: abs(-tav)), "Duration", **ctx)
         if a:
             _cmp(M, "interval_ops", "iv-floordiv", _try(lambda: iv // da), _try(lambda: tb // ta), "number", **ctx)
             _cmp(M, "interval_ops", "iv-mod", _try(lambda: iv % ta), _try(lambda: tb % ta), "Duration", **ctx)
